@@ -1,7 +1,9 @@
 """C06 - resources never exceed capacity, grant in queue order, never idle a slot."""
 import re
 from harness import kprops, kbridge
-from harness.kbridge import EXTRA_MODULES, TRUSTED_EXTRA, prepare
+from harness.kbridge import TRUSTED_EXTRA
+EXTRA_MODULES = kbridge.MODULES['C06']      # this property's bridge modules only (py2lean/SCOPE.md)
+prepare = kbridge.prepare_for('C06')    # regenerates only the generated files this property owns
 from vlib.util import unbits
 ASSUMPTIONS = ['each process holds or awaits at most one request per resource at a time; holders release before they terminate',
                'requests are created inside processes (PreemptiveResource needs the requesting process)']
